@@ -734,6 +734,47 @@ pub fn degenerate_count(r: &Recipe) -> usize {
     n
 }
 
+/// Which degenerate constructions occur in `r` (bounded vocabulary, used for signatures of the
+/// epsilon/empty-language defect family so that the same root cause keeps one signature).
+pub fn degenerate_features(r: &Recipe) -> BTreeSet<&'static str> {
+    use Recipe::*;
+    let mut f = BTreeSet::new();
+    let mut first = true;
+    r.visit(&mut |x| {
+        let root = first;
+        first = false;
+        match x {
+            Any => {
+                f.insert("universal");
+            }
+            Inter(v) if v.is_empty() => {
+                f.insert("universal");
+            }
+            Neg(c) | Minus(_, c) if trivial_language(c).is_some() => {
+                f.insert("complement-of-trivial");
+            }
+            List(c) | NonEmptyList(c) | SpacedList(c) | SpacedNonEmptyList(c)
+                if trivial_language(c) == Some("<eps>") =>
+            {
+                f.insert("iteration-of-eps");
+            }
+            _ => {}
+        }
+        if !root {
+            match trivial_language(x) {
+                Some("<empty>") => {
+                    f.insert("empty-part");
+                }
+                Some(_) if !x.children().is_empty() => {
+                    f.insert("eps-only-part");
+                }
+                _ => {}
+            }
+        }
+    });
+    f
+}
+
 /// `<eps>` / `<empty>` when the (reference) language of `r` is {epsilon} / empty
 pub fn trivial_language(r: &Recipe) -> Option<&'static str> {
     let re = r.to_ref();
@@ -956,7 +997,13 @@ fn report_finding(rep: &mut Report, recipe: &Recipe, f: &Finding, bud: &ExprBudg
             return;
         }
     };
-    let shape = sig_shape(&small);
+    let feats = degenerate_features(&small);
+    let exact_shape = sig_shape(&small);
+    let shape = if feats.is_empty() {
+        exact_shape.clone()
+    } else {
+        format!("degenerate[{}]", feats.iter().copied().collect::<Vec<_>>().join("+"))
+    };
     let recipe_json = serde_json::to_value(&small).unwrap();
     let orig_json = serde_json::to_value(recipe).unwrap();
     match &f2 {
@@ -968,19 +1015,19 @@ fn report_finding(rep: &mut Report, recipe: &Recipe, f: &Finding, bud: &ExprBudg
                 hx(word),
                 if *ref_accepts { "contains" } else { "does not contain" }
             ),
-            json!({"sub":"expr","recipe":recipe_json,"original_recipe":orig_json,"word":hx(word),"reference_accepts":ref_accepts}),
+            json!({"sub":"expr","shape":exact_shape,"recipe":recipe_json,"original_recipe":orig_json,"word":hx(word),"reference_accepts":ref_accepts}),
         ),
         Finding::Marker { word, reference, library } => rep.violation(
             &format!("C19/markers/{shape}/mismatch"),
             &format!("accepted word {} is marked {:?} by the automaton, {:?} by the expression", hx(word), library, reference),
-            json!({"sub":"expr","recipe":recipe_json,"original_recipe":orig_json,"word":hx(word),"reference":reference,"library":library}),
+            json!({"sub":"expr","shape":exact_shape,"recipe":recipe_json,"original_recipe":orig_json,"word":hx(word),"reference":reference,"library":library}),
         ),
         Finding::Panic { info, kind } => {
             let sub = if kind.contains("serial") { "serialize" } else if kind.contains("nondet") { "markers" } else { "lang" };
             rep.violation(
                 &format!("C19/{sub}/{shape}/{kind}@{}", repo_file(&info.file)),
                 &format!("panic: {}", info.message.chars().take(160).collect::<String>()),
-                json!({"sub":"expr","recipe":recipe_json,"original_recipe":orig_json,"location":info.location,"message":info.message}),
+                json!({"sub":"expr","shape":exact_shape,"recipe":recipe_json,"original_recipe":orig_json,"location":info.location,"message":info.message}),
             )
         }
         Finding::Serialize { what } => rep.violation(
@@ -1136,6 +1183,9 @@ fn fixed_recipes() -> Vec<Recipe> {
         Delimited(b(ByteNotFrom(ByteSet::from_bytes(b"\""))), b(FromStr("\"".into())), b(FromString("\"".into()))),
         Terminated(b(FromU8(0)), b(FromRefU8(255))),
         Or(b(Word("".into())), b(Word("abc".into()))),
+        ByteFrom(ByteSet(vec![(b'l', b'l'), (b'l', b'l')])),
+        Neg(b(bf(b"a"))),
+        Neg(b(List(b(bf(b"ab"))))),
     ]
 }
 
@@ -1163,10 +1213,14 @@ fn part_a(ctx: &Ctx, rep: &mut Report, pool: &mut Vec<(Recipe, Automaton, RefRe)
     let mut comb_cov: BTreeMap<&'static str, u64> = Recipe::ALL_NAMES.iter().map(|n| (*n, 0)).collect();
     let mut depth_cov: BTreeMap<usize, u64> = BTreeMap::new();
     let mut max_time = 0f64;
+    let mut slowest = String::new();
     let (mut held, mut held_marked) = (0u64, 0u64);
     for (i, ((recipe, fixed), (res, secs))) in recipes.iter().zip(results).enumerate() {
         rep.eval();
-        max_time = max_time.max(secs);
+        if secs > max_time {
+            max_time = secs;
+            slowest = serde_json::to_string(recipe).unwrap();
+        }
         let case_seed = seed ^ (i as u64) << 20;
         let (out, keep) = match res {
             Ok(x) => x,
@@ -1225,6 +1279,7 @@ fn part_a(ctx: &Ctx, rep: &mut Report, pool: &mut Vec<(Recipe, Automaton, RefRe)
     rep.set("expr.combinator_coverage", json!(comb_cov));
     rep.set("expr.depth_coverage", json!(depth_cov.iter().map(|(k, v)| (k.to_string(), *v)).collect::<BTreeMap<_, _>>()));
     rep.set("expr.max_case_seconds", json!(max_time));
+    rep.set("expr.slowest_recipe", json!(slowest));
     let missing: Vec<_> = comb_cov.iter().filter(|(_, v)| **v == 0).map(|(k, _)| *k).collect();
     if !missing.is_empty() {
         rep.inconclusive(&format!("combinators never covered by a held case: {missing:?}"));
